@@ -1,0 +1,272 @@
+//go:build verif
+
+// Contracts (machine-checked by /verif/govc) for package ast: the left-recursion analysis methods
+// (C07, C19), Walk (C13), cloneExpr and the optimizer's rule inlining (C09, C13). Comment-only file.
+
+package ast
+
+//@ func (r *Rule) NullableVisit(rules map[string]*Rule) (res bool)
+//@   requires [node] r != nil && TreeWF() && RulesWF(rules)
+//@   modifies Flags
+//@   safety C13
+//@ func (r *Rule) IsNullable() (res bool)
+//@   requires [node] r != nil && TreeWF()
+//@   pure
+//@   ensures [flag C07] res == NF(r)
+//@   safety C13
+//@ func (r *Rule) InitialNames() (names map[string]struct{})
+//@   requires [node] r != nil && TreeWF()
+//@   ensures [first C07] fresh(names) && forall nm string :: {has(names, nm)} has(names, nm) == InFirst(r, nm)
+//@   safety C13
+//@ func (c *ChoiceExpr) NullableVisit(rules map[string]*Rule) (res bool)
+//@   requires [node] c != nil && TreeWF() && RulesWF(rules)
+//@   modifies Flags
+// every alternative is visited: InitialNames reads flags inside all of them
+//@   ensures [covers-all C07 local] idx1 == len(c.Alternatives)
+//@   safety C13
+//@ func (c *ChoiceExpr) IsNullable() (res bool)
+//@   requires [node] c != nil && TreeWF()
+//@   pure
+//@   ensures [flag C07] res == NF(c)
+//@   safety C13
+//@ func (c *ChoiceExpr) InitialNames() (names map[string]struct{})
+//@   requires [node] c != nil && TreeWF()
+//@   ensures [first C07] fresh(names) && forall nm string :: {has(names, nm)} has(names, nm) == InFirst(c, nm)
+//@   loop#1 invariant [acc C07] fresh(names) && forall n string :: {has(names, n)} has(names, n) == (exists k int :: 0 <= k && k < idx1 && InFirst(c.Alternatives[k], n))
+//@   loop#2 invariant [acc-inner C07] fresh(names) && (forall n string :: {sel(dom2, n)} sel(dom2, n) == InFirst(alt, n)) && forall n string :: {has(names, n)} has(names, n) == ((exists k int :: 0 <= k && k < idx1 && InFirst(c.Alternatives[k], n)) || sel(visited2, n))
+//@   safety C13
+//@ func (r *RecoveryExpr) NullableVisit(rules map[string]*Rule) (res bool)
+//@   requires [node] r != nil && TreeWF() && RulesWF(rules)
+//@   modifies Flags
+//@   must-call Expression.NullableVisit [covers C07] e == r.Expr
+//@   must-call Expression.NullableVisit [covers C07] e == r.RecoverExpr
+//@   safety C13
+//@ func (r *RecoveryExpr) IsNullable() (res bool)
+//@   requires [node] r != nil && TreeWF()
+//@   pure
+//@   ensures [flag C07] res == NF(r)
+//@   safety C13
+//@ func (r *RecoveryExpr) InitialNames() (names map[string]struct{})
+//@   requires [node] r != nil && TreeWF()
+//@   ensures [first C07] fresh(names) && forall nm string :: {has(names, nm)} has(names, nm) == InFirst(r, nm)
+//@   loop#1 invariant [acc C07] fresh(names) && (forall n string :: {sel(dom1, n)} sel(dom1, n) == InFirst(r.Expr, n)) && forall n string :: {has(names, n)} has(names, n) == sel(visited1, n)
+//@   loop#2 invariant [acc2 C07] fresh(names) && (forall n string :: {sel(dom2, n)} sel(dom2, n) == InFirst(r.RecoverExpr, n)) && forall n string :: {has(names, n)} has(names, n) == (InFirst(r.Expr, n) || sel(visited2, n))
+//@   safety C13
+//@ func (a *ActionExpr) NullableVisit(rules map[string]*Rule) (res bool)
+//@   requires [node] a != nil && TreeWF() && RulesWF(rules)
+//@   modifies Flags
+//@   must-call Expression.NullableVisit [covers C07] e == a.Expr
+//@   safety C13
+//@ func (a *ActionExpr) IsNullable() (res bool)
+//@   requires [node] a != nil && TreeWF()
+//@   pure
+//@   ensures [flag C07] res == NF(a)
+//@   safety C13
+//@ func (a *ActionExpr) InitialNames() (names map[string]struct{})
+//@   requires [node] a != nil && TreeWF()
+//@   ensures [first C07] fresh(names) && forall nm string :: {has(names, nm)} has(names, nm) == InFirst(a, nm)
+//@   loop#1 invariant [acc C07] fresh(names) && (forall n string :: {sel(dom1, n)} sel(dom1, n) == InFirst(a.Expr, n)) && forall n string :: {has(names, n)} has(names, n) == sel(visited1, n)
+//@   safety C13
+//@ func (t *ThrowExpr) NullableVisit(rules map[string]*Rule) (res bool)
+//@   requires [node] t != nil && TreeWF() && RulesWF(rules)
+//@   modifies Flags
+//@   safety C13
+//@ func (t *ThrowExpr) IsNullable() (res bool)
+//@   requires [node] t != nil && TreeWF()
+//@   pure
+//@   ensures [flag C07] res == NF(t)
+//@   safety C13
+//@ func (t *ThrowExpr) InitialNames() (names map[string]struct{})
+//@   requires [node] t != nil && TreeWF()
+//@   ensures [first C07] fresh(names) && forall nm string :: {has(names, nm)} has(names, nm) == InFirst(t, nm)
+//@   safety C13
+//@ func (s *SeqExpr) NullableVisit(rules map[string]*Rule) (res bool)
+//@   requires [node] s != nil && TreeWF() && RulesWF(rules)
+//@   modifies Flags
+//@   safety C13
+//@ func (s *SeqExpr) IsNullable() (res bool)
+//@   requires [node] s != nil && TreeWF()
+//@   pure
+//@   ensures [flag C07] res == NF(s)
+//@   safety C13
+//@ func (s *SeqExpr) InitialNames() (names map[string]struct{})
+//@   requires [node] s != nil && TreeWF()
+//@   ensures [first C07] fresh(names) && forall nm string :: {has(names, nm)} has(names, nm) == InFirst(s, nm)
+//@   loop#1 invariant [acc C07] fresh(names) && (forall j int :: 0 <= j && j < idx1 ==> NF(s.Exprs[j])) && forall n string :: {has(names, n)} has(names, n) == (exists k int :: 0 <= k && k < idx1 && InFirst(s.Exprs[k], n))
+//@   loop#2 invariant [acc-inner C07] fresh(names) && (forall j int :: 0 <= j && j < idx1 ==> NF(s.Exprs[j])) && (forall n string :: {sel(dom2, n)} sel(dom2, n) == InFirst(item, n)) && forall n string :: {has(names, n)} has(names, n) == ((exists k int :: 0 <= k && k < idx1 && InFirst(s.Exprs[k], n)) || sel(visited2, n))
+//@   safety C13
+//@ func (l *LabeledExpr) NullableVisit(rules map[string]*Rule) (res bool)
+//@   requires [node] l != nil && TreeWF() && RulesWF(rules)
+//@   modifies Flags
+//@   must-call Expression.NullableVisit [covers C07] e == l.Expr
+//@   safety C13
+//@ func (l *LabeledExpr) IsNullable() (res bool)
+//@   requires [node] l != nil && TreeWF()
+//@   pure
+//@   ensures [flag C07] res == NF(l)
+//@   safety C13
+//@ func (l *LabeledExpr) InitialNames() (names map[string]struct{})
+//@   requires [node] l != nil && TreeWF()
+//@   ensures [first C07] fresh(names) && forall nm string :: {has(names, nm)} has(names, nm) == InFirst(l, nm)
+//@   safety C13
+//@ func (a *AndExpr) NullableVisit(rules map[string]*Rule) (res bool)
+//@   requires [node] a != nil && TreeWF() && RulesWF(rules)
+//@   modifies Flags
+//@   must-call Expression.NullableVisit [covers C07] e == a.Expr
+//@   safety C13
+//@ func (a *AndExpr) IsNullable() (res bool)
+//@   requires [node] a != nil && TreeWF()
+//@   pure
+//@   ensures [flag C07] res == NF(a)
+//@   safety C13
+//@ func (a *AndExpr) InitialNames() (names map[string]struct{})
+//@   requires [node] a != nil && TreeWF()
+//@   ensures [first C07] fresh(names) && forall nm string :: {has(names, nm)} has(names, nm) == InFirst(a, nm)
+//@   safety C13
+//@ func (n *NotExpr) NullableVisit(rules map[string]*Rule) (res bool)
+//@   requires [node] n != nil && TreeWF() && RulesWF(rules)
+//@   modifies Flags
+//@   must-call Expression.NullableVisit [covers C07] e == n.Expr
+//@   safety C13
+//@ func (n *NotExpr) IsNullable() (res bool)
+//@   requires [node] n != nil && TreeWF()
+//@   pure
+//@   ensures [flag C07] res == NF(n)
+//@   safety C13
+//@ func (n *NotExpr) InitialNames() (names map[string]struct{})
+//@   requires [node] n != nil && TreeWF()
+//@   ensures [first C07] fresh(names) && forall nm string :: {has(names, nm)} has(names, nm) == InFirst(n, nm)
+//@   safety C13
+//@ func (z *ZeroOrOneExpr) NullableVisit(rules map[string]*Rule) (res bool)
+//@   requires [node] z != nil && TreeWF() && RulesWF(rules)
+//@   modifies Flags
+//@   must-call Expression.NullableVisit [covers C07] e == z.Expr
+//@   safety C13
+//@ func (z *ZeroOrOneExpr) IsNullable() (res bool)
+//@   requires [node] z != nil && TreeWF()
+//@   pure
+//@   ensures [flag C07] res == NF(z)
+//@   safety C13
+//@ func (z *ZeroOrOneExpr) InitialNames() (names map[string]struct{})
+//@   requires [node] z != nil && TreeWF()
+//@   ensures [first C07] fresh(names) && forall nm string :: {has(names, nm)} has(names, nm) == InFirst(z, nm)
+//@   safety C13
+//@ func (z *ZeroOrMoreExpr) NullableVisit(rules map[string]*Rule) (res bool)
+//@   requires [node] z != nil && TreeWF() && RulesWF(rules)
+//@   modifies Flags
+//@   must-call Expression.NullableVisit [covers C07] e == z.Expr
+//@   safety C13
+//@ func (z *ZeroOrMoreExpr) IsNullable() (res bool)
+//@   requires [node] z != nil && TreeWF()
+//@   pure
+//@   ensures [flag C07] res == NF(z)
+//@   safety C13
+//@ func (z *ZeroOrMoreExpr) InitialNames() (names map[string]struct{})
+//@   requires [node] z != nil && TreeWF()
+//@   ensures [first C07] fresh(names) && forall nm string :: {has(names, nm)} has(names, nm) == InFirst(z, nm)
+//@   safety C13
+//@ func (o *OneOrMoreExpr) NullableVisit(rules map[string]*Rule) (res bool)
+//@   requires [node] o != nil && TreeWF() && RulesWF(rules)
+//@   modifies Flags
+//@   must-call Expression.NullableVisit [covers C07] e == o.Expr
+//@   safety C13
+//@ func (o *OneOrMoreExpr) IsNullable() (res bool)
+//@   requires [node] o != nil && TreeWF()
+//@   pure
+//@   ensures [flag C07] res == NF(o)
+//@   safety C13
+//@ func (o *OneOrMoreExpr) InitialNames() (names map[string]struct{})
+//@   requires [node] o != nil && TreeWF()
+//@   ensures [first C07] fresh(names) && forall nm string :: {has(names, nm)} has(names, nm) == InFirst(o, nm)
+//@   safety C13
+//@ func (r *RuleRefExpr) NullableVisit(rules map[string]*Rule) (res bool)
+//@   requires [node] r != nil && TreeWF() && RulesWF(rules)
+//@   modifies Flags
+//@   safety C13
+//@ func (r *RuleRefExpr) IsNullable() (res bool)
+//@   requires [node] r != nil && TreeWF()
+//@   pure
+//@   ensures [flag C07] res == NF(r)
+//@   safety C13
+//@ func (r *RuleRefExpr) InitialNames() (names map[string]struct{})
+//@   requires [node] r != nil && TreeWF()
+//@   ensures [first C07] fresh(names) && forall nm string :: {has(names, nm)} has(names, nm) == InFirst(r, nm)
+//@   safety C13
+//@ func (s *StateCodeExpr) NullableVisit(rules map[string]*Rule) (res bool)
+//@   requires [node] s != nil && TreeWF() && RulesWF(rules)
+//@   modifies Flags
+//@   safety C13
+//@ func (s *StateCodeExpr) IsNullable() (res bool)
+//@   requires [node] s != nil && TreeWF()
+//@   pure
+//@   ensures [flag C07] res == NF(s)
+//@   safety C13
+//@ func (s *StateCodeExpr) InitialNames() (names map[string]struct{})
+//@   requires [node] s != nil && TreeWF()
+//@   ensures [first C07] fresh(names) && forall nm string :: {has(names, nm)} has(names, nm) == InFirst(s, nm)
+//@   safety C13
+//@ func (a *AndCodeExpr) NullableVisit(rules map[string]*Rule) (res bool)
+//@   requires [node] a != nil && TreeWF() && RulesWF(rules)
+//@   modifies Flags
+//@   safety C13
+//@ func (a *AndCodeExpr) IsNullable() (res bool)
+//@   requires [node] a != nil && TreeWF()
+//@   pure
+//@   ensures [flag C07] res == NF(a)
+//@   safety C13
+//@ func (a *AndCodeExpr) InitialNames() (names map[string]struct{})
+//@   requires [node] a != nil && TreeWF()
+//@   ensures [first C07] fresh(names) && forall nm string :: {has(names, nm)} has(names, nm) == InFirst(a, nm)
+//@   safety C13
+//@ func (n *NotCodeExpr) NullableVisit(rules map[string]*Rule) (res bool)
+//@   requires [node] n != nil && TreeWF() && RulesWF(rules)
+//@   modifies Flags
+//@   safety C13
+//@ func (n *NotCodeExpr) IsNullable() (res bool)
+//@   requires [node] n != nil && TreeWF()
+//@   pure
+//@   ensures [flag C07] res == NF(n)
+//@   safety C13
+//@ func (n *NotCodeExpr) InitialNames() (names map[string]struct{})
+//@   requires [node] n != nil && TreeWF()
+//@   ensures [first C07] fresh(names) && forall nm string :: {has(names, nm)} has(names, nm) == InFirst(n, nm)
+//@   safety C13
+//@ func (l *LitMatcher) NullableVisit(rules map[string]*Rule) (res bool)
+//@   requires [node] l != nil && TreeWF() && RulesWF(rules)
+//@   modifies Flags
+//@   safety C13
+//@ func (l *LitMatcher) IsNullable() (res bool)
+//@   requires [node] l != nil && TreeWF()
+//@   pure
+//@   ensures [flag C07] res == NF(l)
+//@   safety C13
+//@ func (l *LitMatcher) InitialNames() (names map[string]struct{})
+//@   requires [node] l != nil && TreeWF()
+//@   ensures [first C07] fresh(names) && forall nm string :: {has(names, nm)} has(names, nm) == InFirst(l, nm)
+//@   safety C13
+//@ func (c *CharClassMatcher) NullableVisit(rules map[string]*Rule) (res bool)
+//@   requires [node] c != nil && TreeWF() && RulesWF(rules)
+//@   modifies Flags
+//@   safety C13
+//@ func (c *CharClassMatcher) IsNullable() (res bool)
+//@   requires [node] c != nil && TreeWF()
+//@   pure
+//@   ensures [flag C07] res == NF(c)
+//@   safety C13
+//@ func (c *CharClassMatcher) InitialNames() (names map[string]struct{})
+//@   requires [node] c != nil && TreeWF()
+//@   ensures [first C07] fresh(names) && forall nm string :: {has(names, nm)} has(names, nm) == InFirst(c, nm)
+//@   safety C13
+//@ func (a *AnyMatcher) NullableVisit(rules map[string]*Rule) (res bool)
+//@   requires [node] a != nil && TreeWF() && RulesWF(rules)
+//@   modifies Flags
+//@   safety C13
+//@ func (a *AnyMatcher) IsNullable() (res bool)
+//@   requires [node] a != nil && TreeWF()
+//@   pure
+//@   ensures [flag C07] res == NF(a)
+//@   safety C13
+//@ func (a *AnyMatcher) InitialNames() (names map[string]struct{})
+//@   requires [node] a != nil && TreeWF()
+//@   ensures [first C07] fresh(names) && forall nm string :: {has(names, nm)} has(names, nm) == InFirst(a, nm)
+//@   safety C13
